@@ -394,8 +394,57 @@ func addDelta(c types.Currency, d int) types.Currency {
 	return fromBig(v)
 }
 
+// staleTableProbe: a host-signed, unexpired price table may lag the chain; what bounds the proof height of a new
+// contract is the chain tip. A formation request built against a table 18+ blocks old, asking for a proof height the
+// chain has already reached, has to be refused by Validate - if it is admitted, the constructor's contract goes to
+// consensus like any other and a rejection there is the violation.
+func (s *seqState) staleTableProbe() {
+	b, r := s.b, s.r
+	tip := s.c.cs.Index
+	if tip.Height < rhp4.MinContractDuration+2 {
+		return
+	}
+	stale := s.prices
+	stale.TipHeight = tip.Height - rhp4.MinContractDuration - r.Uint64N(min(4, tip.Height-rhp4.MinContractDuration))
+	stale.Signature = s.host.sk.SignHash(stale.SigHash())
+	ph := stale.TipHeight + rhp4.MinContractDuration + r.Uint64N(tip.Height-stale.TipHeight-rhp4.MinContractDuration+1) // <= tip
+	params := rhp4.RPCFormContractParams{RenterPublicKey: s.renter.pk, RenterAddress: s.renter.addr, ProofHeight: ph, Collateral: types.ZeroCurrency}
+	params.Allowance = fromBig(minAllowanceBig(stale, params.Collateral))
+	if params.Allowance.IsZero() {
+		params.Allowance = types.NewCurrency64(1)
+	}
+	fee := types.NewCurrency64(1 + r.Uint64N(1<<30))
+	req := rhp4.RPCFormContractRequest{Prices: stale, Contract: params, MinerFee: fee, Basis: tip, RenterInputs: []types.SiacoinElement{s.c.fund.Copy()}}
+	b.Eval(1)
+	b.Count("formations_against_a_stale_price_table_with_a_proof_height_already_reached", 1)
+	b.Distinct("stale-table", tip.Height-stale.TipHeight, tip.Height-ph)
+	if err := req.Validate(s.host.pk, tip, types.Siacoins(1), 100000); err != nil {
+		b.Count("stale_table_requests_rejected_by_validate", 1)
+		return
+	}
+	saved := s.prices
+	s.prices = stale
+	defer func() { s.prices = saved }()
+	var fc types.V2FileContract
+	if b.Guard("C17/NewContract", func() any { return s.witness(nil) }, func() { fc, _ = rhp4.NewContract(stale, params, s.host.pk, s.host.addr) }) {
+		return
+	}
+	rc, hc := rhp4.ContractCost(s.c.cs, fc, fee)
+	s.signContract(&fc)
+	s.note("form-with-stale-table", map[string]any{"proof_height": ph, "tip": tip.Height, "price_table_tip": stale.TipHeight})
+	s.submitFunded("formation", rc, hc, func() types.V2Transaction {
+		return types.V2Transaction{FileContracts: []types.V2FileContract{fc}, MinerFee: fee}
+	})
+}
+
 func (s *seqState) form() bool {
 	b, r := s.b, s.r
+	if r.IntN(4) == 0 {
+		s.staleTableProbe()
+		if s.dead {
+			return false
+		}
+	}
 	tip := s.c.cs.Index
 	s.maxDuration = 170 + r.Uint64N(5000)
 	ph, phClass := s.pickProofHeight(minProofHeight(tip.Height, s.prices.TipHeight))
